@@ -415,6 +415,13 @@ class G:
         lines.append("op 5 %s %s" % (r.choice(["refine_with_constraint", "refine_with_constraint", "add_constraint"]), touching_con()))
         lines.append("op 6 propagate_constraints 1 %s" % touching_con())
         lines.append("op 7 refine_with_constraints 2 %s %s" % (touching_con(), touching_con()))
+        if n > 1:
+            # non-interval equalities, each sign pattern, constant chosen so that an end of the box is met exactly
+            for k in (8, 9):
+                vs = r.sample(range(n), 2)
+                lines.append("copy %d 0" % k)
+                lines.append("op %d %s 1 %s" % (k, r.choice(["refine_with_constraints", "propagate_constraints"]),
+                                               self.grid_con(n, [(vs[0], r.choice([1, -1, 2])), (vs[1], r.choice([-1, 1, -2]))], r.choice([0, 0, 1, -1, 2]), "=")))
         lines += ["qry 0 contains 1", "qry 0 is_disjoint_from 1", "qry 0 strictly_contains 5", "qry 0 equals 5",
                   "qry 0 maximize %d 0 %s" % (n, " ".join(str(r.choice([-1, 0, 1, 2])) for _ in range(n))),
                   r.choice(["op 0 difference_assign 1", "op 1 difference_assign 0"]),
